@@ -5,6 +5,7 @@ pub mod comp;
 pub mod gen;
 pub mod guard;
 pub mod http;
+pub mod jsonref;
 pub mod model;
 pub mod mon;
 pub mod mvtsrc;
